@@ -436,7 +436,7 @@ class C02(Check):
     def _run_detect(self, case, data, info, label, log):
         m = imgsim.fi()
         f = case['file']
-        path = '/sim/image'
+        path = imgsim.image_on_disk(data)
         files = self._open_seam(path, data, f)
         try:
             try:
@@ -451,6 +451,11 @@ class C02(Check):
         finally:
             self._close_seam()
         sf = files[0] if files else None
+        if sf is None:
+            # this tree opens files some other way: it read the real file,
+            # the plan of short reads and read errors was not in effect
+            self.bump('probes', 'open_seam_unavailable')
+            f = {}
         fired = bool(sf and f.get('fault') and sf.reads > f['fault']['at'])
         if f.get('short'):
             self.bump('faults', 'file_short_read')
@@ -493,7 +498,7 @@ class C02(Check):
         m = imgsim.fi()
         f = case['file']
         fmt = info['fmt']
-        path = '/sim/image'
+        path = imgsim.image_on_disk(data)
         files = self._open_seam(path, data, f)
         try:
             try:
@@ -508,6 +513,9 @@ class C02(Check):
         finally:
             self._close_seam()
         sf = files[0] if files else None
+        if sf is None:
+            self.bump('probes', 'open_seam_unavailable')
+            f = {}
         fired = bool(sf and f.get('fault') and sf.reads > f['fault']['at'])
         if f.get('short'):
             self.bump('faults', 'file_short_read')
@@ -588,6 +596,11 @@ class C02(Check):
                 self._close_seam()
             outtxt = so.getvalue()
             sf = files[0] if files else None
+            if sf is None and f['path'] == 'file':
+                # the tool opened the image some other way and read the
+                # real file: no short reads, no read errors
+                self.bump('probes', 'open_seam_unavailable')
+                f = dict(f, short=None, fault=None)
             fired = bool(sf and f.get('fault') and
                          sf.reads > f['fault']['at'])
             if f.get('short'):
